@@ -27,6 +27,7 @@ Feat(fr) == CASE fr.k = "char" -> fr.v[1][1]
               [] fr.k = "optu32" -> IF fr.v = <<>> THEN "none" ELSE "some"
               [] fr.k = "vecstr" -> IF Len(fr.v) = 0 THEN "len0" ELSE IF Len(fr.v) = 1 THEN "len1-" \o StrFeat(fr.v[1]) ELSE "len2+"
               [] fr.k = "vecu32" -> IF Len(fr.v) = 0 THEN "len0" ELSE IF Len(fr.v) = 1 THEN "len1" ELSE "len2+"
+              [] fr.k = "tup2u32" -> "tuple2"
               [] fr.k = "enum" -> fr.v[1][1]
               [] fr.k = "entry" -> IF fr.key = <<>> THEN "emptykey" ELSE "key"
               [] OTHER -> "num"
@@ -74,7 +75,11 @@ DecJudge(scn, obs) ==
       ref == RefPairs(text)
       fs == Catalogue[scn.ty]
       KeyIdx(f) == {i \in 1..Len(ref) : ref[i].k.v = NameCp[f]}
-      asserted == /\ WellFormed(text) /\ AllUtf8(ref)
+      \* every key is text; the values of the target's own fields are text (what an unknown extra pair carries is never looked at:
+      \* "independent of unknown extra fields" -- its escapes need not even form UTF-8)
+      KnownKey(i) == \E j \in 1..Len(fs) : ref[i].k.v = NameCp[fs[j].f]
+      textual == IF scn.ty = "Map" THEN AllUtf8(ref) ELSE \A i \in 1..Len(ref) : ref[i].k.ok /\ (KnownKey(i) => ref[i].v.ok)
+      asserted == /\ WellFormed(text) /\ textual
                   /\ IF scn.ty = "Map" THEN \A i \in 1..Len(ref) : \A j \in 1..Len(ref) : i # j => ref[i].k.v # ref[j].k.v
                      ELSE \A i \in 1..Len(fs) : \/ Cardinality(KeyIdx(fs[i].f)) = 1
                                                 \/ (fs[i].k \in OptKinds /\ KeyIdx(fs[i].f) = {})
